@@ -13,7 +13,7 @@ from .. import core, real, progs, tickrec, values, vmops
 LEAN_MODULE = 'QbeeModel.Props.C07'
 REQUIRED = ['tick_interrupt', 'tick_interrupt_clears', 'unarmed_trap_halts', 'tick_total', 'division_by_zero_traps',
             'float_division_by_zero_traps', 'overflow_traps', 'mk_no_host', 'int_arith_no_host', 'unop_numeric_no_host',
-            'conv_no_host', 'unop_no_host', 'cmp_mismatch_traps']
+            'conv_no_host', 'unop_no_host', 'cmp_mismatch_traps', 'non_finite_traps', 'double_overflow_was_silent']
 
 # statements that fail on purpose, with the trap the property prescribes
 FAILING = [
@@ -30,6 +30,10 @@ FAILING = [
     # just beyond the largest SINGLE (between FLT_MAX + half an ulp and 2^128): still a numeric overflow
     ('big# = 3.4028236D+38: w! = big#', 'INVALID_CELL_VALUE'), ('w! = 3.4028234E+38: w! = w! + 2E+31', 'INVALID_CELL_VALUE'),
     ('big# = 3.40282357D+38: PRINT CSNG(big#)' if False else 'big# = 3.40282357D+38: w! = big# * 1', 'INVALID_CELL_VALUE'),
+    # DOUBLE results beyond the largest DOUBLE (the host's float arithmetic yields inf / nan silently)
+    ('big# = 1D308: w# = big# * 10', 'INVALID_CELL_VALUE'), ('big# = 1.7D308: w# = big# + big#', 'INVALID_CELL_VALUE'),
+    ('big# = -1D308: w# = big# / 1D-10', 'INVALID_CELL_VALUE'), ('big# = -1.7D308: w# = big# - 1.7D308', 'INVALID_CELL_VALUE'),
+    ('PRINT 1D308 * 10', 'INVALID_CELL_VALUE'), ('big# = 1D308: PRINT big# * big# - big# * big#', 'INVALID_CELL_VALUE'),
 ]
 # statements that exercise the instructions outside the models (strings, devices, float power ...)
 EXOTIC = ['PRINT 2 ^ 0.5', 'PRINT 10# ^ 400', 'PRINT (-8) ^ 0.5', 'PRINT 0 ^ -1', 'PRINT VAL("99999999999")', 'PRINT VAL("1e999")',
@@ -41,7 +45,7 @@ EXOTIC = ['PRINT 2 ^ 0.5', 'PRINT 10# ^ 400', 'PRINT (-8) ^ 0.5', 'PRINT 0 ^ -1'
           'CLS', 'WIDTH 80, 25', 'VIEW PRINT 1 TO 10', 'SCREEN 0', 'PLAY "abc"', 'PRINT LBOUND(arr%); UBOUND(arr%, 1)',
           'PRINT UBOUND(arr%, 2)', 'PRINT LTRIM$("  a"); RTRIM$("a  "); MID$("abcdef", 2)', 'PRINT ABS(-32768&); -z%; NOT o%',
           'PRINT 5 \\ 0.4', 'PRINT 5 MOD 0.4', 'PRINT 1E30 \\ 3', 'PRINT 3000000000# MOD 7', 'PRINT 2 ^ 31; 2& ^ 31; 2% ^ 15',
-          'PRINT z% ^ -o%', 'PRINT z# ^ (0 - 1)', 'PRINT z! ^ -.5', 'PRINT (z% - 8) ^ .5']
+          'PRINT z% ^ -o%', 'PRINT z# ^ (0 - 1)', 'PRINT z! ^ -.5', 'PRINT (z% - 8) ^ .5', 'PRINT ERR', 'w% = ERR + 1: PRINT w%']
 
 
 # whole programs around constructs the generator does not produce
@@ -59,6 +63,14 @@ SPECIAL = [
     'DIM a(2) AS INTEGER\nFOR i% = 0 TO 3\na(i%) = i%\nNEXT\n',
     'x$ = "a"\nFOR i% = 1 TO 14\nx$ = x$ + x$\nNEXT\nPRINT LEN(x$)\n',
     'INPUT a%, b$\nPRINT a%; b$\nLINE INPUT c$\nPRINT c$\n',
+    # a DIM statement that is jumped over (static and dynamic), and an array no host can allocate
+    'GOTO 10\nDIM a%(5)\n10 a%(1) = 3\nPRINT a%(1)\n',
+    'GOTO 10\nDIM a%(5)\n10 PRINT a%(1); LBOUND(a%)\n',
+    'n% = 5\nGOTO 10\nDIM a%(n%)\n10 a%(1) = 3\nPRINT a%(1)\n',
+    'CALL p(1)\nEND\nSUB p(k%)\nIF k% = 1 THEN GOTO 10\nDIM loc&(4)\n10 loc&(2) = 5\nPRINT loc&(2)\nEND SUB\n',
+    'n& = 30000\nDIM a#(n&, n&, n&)\nPRINT 1\n',
+    'ON ERROR GOTO h\nn& = 30000\nDIM a#(n&, n&, n&)\nPRINT "after"\nEND\nh: PRINT ERR\nRESUME NEXT\n',
+    'PRINT ERR\nON ERROR GOTO h\nPRINT 1 \\ z%\nPRINT ERR\nEND\nh: PRINT ERR\nRESUME NEXT\n',
 ]
 
 
@@ -148,6 +160,10 @@ def run(chk):
         if t[4] is not None and r['outcome'] not in (('trap', 'KEYBOARD_INTERRUPT'),) and 'ON ERROR' not in t[0] and r['ticks'] > t[4]:
             chk.finding('C07 an interrupt at an instruction boundary did not stop the run with KEYBOARD_INTERRUPT',
                         f'interrupt before tick {t[4]}: outcome {r["outcome"]}', {'kind': 'program', 'src': t[0], 'O': t[2], 'g': t[3], 'irq': t[4]})
+        if t[4] is not None and 'ON ERROR' not in t[0] and r['ticks'] > t[4] + 1:
+            # "before any further instruction executes": the tick that finds the request pending is the last one
+            chk.finding('C07 an instruction executed after the interrupt request was pending',
+                        f'interrupt before tick {t[4]}: the run went on for {r["ticks"] - t[4]} ticks', {'kind': 'program', 'src': t[0], 'O': t[2], 'g': t[3], 'irq': t[4]})
     bad = chk.corr('tick', reqs, exp, describe=lambda i: {'src': meta[i][0][:200], 'O': meta[i][2], 'g': meta[i][3], 'irq': meta[i][4]})
     # expected trap class of the single-failure programs
     ncls = 0
@@ -166,9 +182,9 @@ def run(chk):
     ninstr = 0
     kinds = {}
     special = {'i': [0, 1, -1, 2, -2, 255, 256, 32767, -32768], 'l': [0, 1, -1, 2147483647, -2147483648, 65536],
-               's': [0.0, -0.0, 1.0, -1.0, 0.5, -0.5, 3.4028234663852886e38, float('inf'), float('nan'), 1e-45, 2.028240960365167e31,
+               's': [0.0, -0.0, 1.0, -1.0, 0.5, -0.5, 3.4028234663852886e38, 1.401298464324817e-45, 2.028240960365167e31,
                      -3.4028234663852886e38],
-               'd': [0.0, -0.0, 1.0, -1.0, 0.5, -0.5, 1.7976931348623157e308, float('inf'), float('nan'), 5e-324, 400.0, 3.4028236e38,
+               'd': [0.0, -0.0, 1.0, -1.0, 0.5, -0.5, 1.7976931348623157e308, -1.7976931348623157e308, 5e-324, 400.0, 3.4028236e38,
                      3.40282357e38, -3.4028236e38, 3.4028235677973366e38],
                't': ['', 'a', 'abc', ' 12 ', '1e999', '99999999999', '&HFFFF', chr(255)]}
     for name, sigs in sorted(vmops.SIGS.items()):
